@@ -1,6 +1,6 @@
 (* C19 — boolean case checkers used by the differential correspondence. *)
-From S2T Require Import Lib.PyStr C19.Model.
-From Coq Require Import List NArith Bool.
+From S2T Require Import Lib.PyStr C19.Model C19.Proofs C19.Depth.
+From Coq Require Import List NArith Bool PeanoNat.
 Import ListNotations.
 
 (* a case: the tree ET.fromstring returned, the implementation's answer (Some output string | None = raised)
@@ -13,4 +13,12 @@ Definition corr_case (T : tables) (V : variant) (c : omml * option str * str) : 
     | Raise cls, None => str_eqb cls exc
     | _, _ => false
     end
+  end.
+
+(* the same plus the measured maximal number of nested process_element frames (0 = not measured) *)
+Definition corr_case_d (T : tables) (V : variant) (c : omml * option str * str * nat) : bool :=
+  match c with
+  | (t, expected, exc, d) =>
+    corr_case T V (t, expected, exc)
+    && match d with O => true | _ => Nat.eqb (conv_depth T t) d end
   end.
